@@ -139,6 +139,7 @@ fn boundary() -> Vec<String> {
             bumpalo::collections::Vec::from_iter_in(1..=8u32, b)
         }
         let mut glue = |name: &str, c: String, s: String| {
+            let (c, s) = (c.replace('\n', "\\n"), s.replace('\n', "\\n"));      // one line per scenario in the trace
             trace.push_str(&format!("\n# glue {} crate={} std={}", name, c, s));
             if c != s {
                 fails.push(format!("ORACLE C13 std-mismatch boundary=glue-{} crate={} std={}", name, c, s));
@@ -168,6 +169,32 @@ fn boundary() -> Vec<String> {
         let c: std::vec::Vec<u32> = (&cv).into_iter().rev().copied().collect();
         let s: std::vec::Vec<u32> = (&sv).into_iter().rev().copied().collect();
         glue("by-ref-iter", format!("{:?}", c), format!("{:?}", s));
+        // trait impls of `Vec` on pairs of contents
+        {
+            use std::borrow::Borrow;
+            use std::collections::hash_map::DefaultHasher;
+            use std::hash::{Hash, Hasher};
+            let h = |x: &dyn Fn(&mut DefaultHasher)| { let mut s = DefaultHasher::new(); x(&mut s); s.finish() };
+            let texts: [&[u32]; 6] = [&[], &[1], &[2], &[1, 2], &[1, 2, 3], &[1, 3]];
+            for a in texts.iter() {
+                for bb in texts.iter() {
+                    let (ca, cb): (BVec<u32>, BVec<u32>) = (BVec::from_iter_in(a.iter().copied(), &b), BVec::from_iter_in(bb.iter().copied(), &b));
+                    let (sa, sb): (std::vec::Vec<u32>, std::vec::Vec<u32>) = (a.to_vec(), bb.to_vec());
+                    let arr3 = [1u32, 2, 3];
+                    let c = format!("{} {} | {} {} | {} {} | {} {} | {:?} {:?} {} {} {} {} | {} | {:?} {:#?} | {:?} {:?} {:?} {:?} {} {:?}",
+                        ca == cb, ca != cb, ca == &bb[..], ca != &bb[..], ca == *bb, ca == arr3, ca == &arr3, ca != arr3,
+                        ca.partial_cmp(&cb), ca.cmp(&cb), ca < cb, ca <= cb, ca > cb, ca >= cb,
+                        h(&|s| ca.hash(s)), ca, cb,
+                        { let r: &[u32] = ca.as_ref(); r }, { let r: &[u32] = ca.borrow(); r }, &*ca, &ca[..], ca.len(), ca.get(1));
+                    let s_ = format!("{} {} | {} {} | {} {} | {} {} | {:?} {:?} {} {} {} {} | {} | {:?} {:#?} | {:?} {:?} {:?} {:?} {} {:?}",
+                        sa == sb, sa != sb, sa == &bb[..], sa != &bb[..], sa == *bb, sa == arr3, sa == &arr3, sa != arr3,
+                        sa.partial_cmp(&sb), sa.cmp(&sb), sa < sb, sa <= sb, sa > sb, sa >= sb,
+                        h(&|s| sa.hash(s)), sa, sb,
+                        { let r: &[u32] = sa.as_ref(); r }, { let r: &[u32] = sa.borrow(); r }, &*sa, &sa[..], sa.len(), sa.get(1));
+                    glue(&format!("traits-{:?}-{:?}", a, bb), c, s_);
+                }
+            }
+        }
         let zc: BVec<()> = BVec::from_iter_in(std::iter::repeat(()).take(5), &b);
         let zs: std::vec::Vec<()> = vec![(); 5];
         let c = { let mut it = zc.into_iter(); (it.size_hint(), it.next().is_some(), it.next_back().is_some(), it.size_hint(), it.count()) };
